@@ -20,7 +20,11 @@ LCDPY = "Displays/LCD.py"
 def helper_functions(em):
     """typed AST of every LCD helper template, instantiated for LiquidCrystal"""
     lcd = lit.table(em, "LCD_HELPER_SNIPPET")
-    names = re.findall(r"void (__redu_lcd_\w+)\(", lcd)
+    # every helper defined at column 0 of the snippet, whatever it returns (a later refactor may add value-returning ones)
+    names = []
+    for m_ in re.finditer(r"^(?:inline\s+|static\s+|constexpr\s+)*[A-Za-z_][\w:<>\*&]*(?:\s+[A-Za-z_][\w:<>\*&]*)*\s+\**&?(__redu_lcd_\w+)\s*\(", lcd, re.M):
+        if m_.group(1) not in names and not m_.group(0).lstrip().startswith(("return", "struct", "enum")):
+            names.append(m_.group(1))
     drv = ("#include <Arduino.h>\n#include <LiquidCrystal.h>\n" + lcd + "\nLiquidCrystal l(1,2,3,4,5,6); __redu_lcd_animation_state st;\nvoid use(){ "
            "__redu_lcd_clear_row(l,16,0); __redu_lcd_write_aligned(l,16,0,0,String(\"x\"),true,__redu_lcd_align_left); __redu_lcd_progress(l,16,0,1,2,3,'#',String(\"\"));\n"
            + "".join(f" {n}(st,l,16,0,String(\"x\"),1UL,true);" for n in names if "_start_" in n) + "".join(f" {n}(st,l,16);" for n in names if "_tick_" in n) + "}\n")
